@@ -37,6 +37,18 @@ CHECKS = {
          "TLC checks Read(Pack(v) ++ tail) = <<v, tail>> per type letter, Parse(Pack(m)) = m, full consumption and re-pack equality per message over boundary values (ints 0/1/2^31+-/max, compact-size thresholds, arrays of 0/1/2/253 up to 1000, IPv4-mapped/IPv6, optional absent/true/false, strings to 65,536 bytes, real embedded transactions/headers/blocks) and prints each case with the bytes the protocol demands; every case is packed and parsed by pycoin and compared byte for byte and field by field; 540 (3,375) seeded random messages incl. arrays of ~2,200 elements are validated as traces.",
          "Trusted: TLC/SANY; layouts are the builder's transcription of the protocol documentation / BIPs 31, 35, 37, 61, 130, 133, 144, 152, 155 (validated on the wiki version/addr examples and on 92 real transactions and 4 blocks re-packed byte for byte). Only BTC; merkleblock beyond one leaf belongs to C14; the message envelope is not covered.",
          "DESIGN.md section 4 C16, notes/C16.md"),
+ "C04": ("TLA+ spec Sighash (legacy digest stated twice - serializer form and copy-and-modify form - and proved equal; FindAndDelete as Core's pointer walk; BIP143 with nested hash terms; BCH/BTG/GRS/LTC variants) over uninterpreted hash terms; commitment lemmas by TLC; TLC-enumerated requests evaluated by a stdlib term evaluator and compared with pycoin's digest functions and VM closures; recorded requests validated by TLC trace spec; signatures of Core vectors as ground truth",
+         "TLC checks, for every hash type (all 256 in the thorough tier) and about 20 single-field changes, that the digest changes iff the field is committed, that the two statements of the legacy algorithm agree, and the per-coin lemmas; it enumerates 165,888 (926,208) requests - coins BTC/BCH/BTG/GRS/LTC x scenarios with OP_CODESEPARATORs and embedded signature pushes x input/output counts x all 256 hash types - whose preimage terms are hashed by a small evaluator and compared with _signature_hash / _signature_for_hash_type_segwit and with the closures the VM calls, with every field and as_bin() projected before and after; 124 real signatures from tx_valid.json, the BIP143 examples and a BCH transaction verify on the spec's digest before pycoin is judged.",
+         "Trusted: TLC/SANY, hashlib, the term evaluator, ECDSA verification of the ground-truth signatures. No offline ground truth for legacy SIGHASH_NONE, BTG fork id 79 or GRS: those rest on the transcription. Which OP_CODESEPARATOR was last executed is an input here (C03).",
+         "DESIGN.md section 4 C04, notes/C04.md"),
+ "C07": ("TLA+ specs Bytes (compact-size parser state machine, run-length blobs), TxWire (serialiser, BIP144 form, ids as hash terms), TxParse (cursor state machine incl. unspents extension), Spendable (text/dict/binary forms); TLC lemmas in every state; TLC-enumerated transactions and spendables replayed on pycoin (BTC, LTC); recorded random transactions validated by TLC trace specs; Core's tx_valid.json as ground truth",
+         "TLC enumerates 4,936 (34,557) abstract transactions over the boundary grid (1..3 and 253 inputs, 0..3 outputs, script and witness-item lengths across 0xfc/0xfd/0xffff/0x10000, amounts to 2^64-1, sequences/versions/lock times at the extremes, empty and mixed witness stacks) and 2,016 (22,680) spendables, checks Parse(Serialize(tx)) = tx, BIP144-iff-witness and txid-independent-of-witness in every state, and prints the wire bytes and id terms; pycoin's as_bin/as_hex/from_bin/from_hex/id/w_id/hash, the unspents extension and the three spendable forms are compared byte by byte and field by field; 500 (3,125) seeded random transactions (up to 260 inputs, ~100 KB blobs) and spendables are validated as traces.",
+         "Trusted: TLC/SANY, hashlib. All 120 tx_valid.json transactions re-serialise byte for byte through the spec first. List counts >= 0x10000 and GRS ids not reached.",
+         "DESIGN.md section 4 C07, notes/C07.md"),
+ "C20": ("TLA+ spec TxCheck (the eight listed defects, the positive accept condition, per-coin MAX_MONEY) over TxWire; TLC-enumerated transactions replayed on tx.check()/is_coinbase()/bad_solution_count() for BTC and GRS; recorded checks validated by TLC trace spec",
+         "TLC enumerates 8,686 (32,740) transactions over the product of input/output counts, value classes incl. totals crossing MAX_MONEY only cumulatively, duplicate outpoints at every position pair, coinbase script lengths 0/1/2/100/101, null and hash-null-only outpoints and size classes (total = 1,000,000, stripped > 1,000,000) for BTC and GRS, with the verdict Reject / Accept / unconstrained; pycoin must reject every Reject, accept every Accept, leave the transaction's bytes unchanged and never count a coinbase as unsigned; 600 (6,000) seeded checks are validated as traces.",
+         "Trusted: TLC/SANY. Any exception out of check() counts as rejection. is_coinbase() on non-coinbase transactions is an observation only.",
+         "DESIGN.md section 4 C20, notes/C20.md"),
 }
 
 NOT_APPLICABLE = {
